@@ -72,6 +72,9 @@ Good06 == TwoPages06 \cup DotNames06 \cup
              u \in {Ref("layouts/main"), Alias("main")}, d \in DataSets06}      \* a layout without reserves, a page without inserts
           \cup {[tree |-> Tree06(LayA, pb, u), page |-> "home", d |-> d, tags |-> <<"c06", "A">>] :
              pb \in PagesA, u \in {Ref("layouts/main"), Alias("main")}, d \in DataSets06}
+          \* the layout FILE L: the same file named through a path prefix that changes nothing
+          \cup {[tree |-> Tree06(LayA, pb, u), page |-> "home", d |-> d, tags |-> <<"c06", "A", "path-spelling">>] :
+             pb \in PagesA, u \in {RefVia("./", "layouts/main"), RefVia("layouts/../", "layouts/main")}, d \in {CHOOSE x \in DataSets06 : TRUE}}
           \cup {[tree |-> Tree06(LayB, pb, u), page |-> "home", d |-> d, tags |-> <<"c06", "B">>] :
              pb \in PagesB, u \in {Ref("layouts/main"), Alias("main")}, d \in DataSets06}
           \cup {[tree |-> Tree06(LayC, pb, Alias("main")), page |-> "home", d |-> d, tags |-> <<"c06", "C">>] : pb \in PagesC, d \in DataSets06}
